@@ -68,7 +68,9 @@ type Multi struct {
 
 type Input struct {
 	Universe []Val             `json:"universe"`
-	Keys     map[string]string `json:"keys"` // custom, custom2, wk, alias
+	Keys     map[string]string `json:"keys"` // custom, custom2, wk, alias (current chunk)
+	// KeySets rotate per chunk (one Cfg line each), so that every alias pair of the scenario is exercised
+	KeySets []map[string]string `json:"keysets"`
 	Cases    []Case            `json:"cases"`
 	Multi    []Multi           `json:"multi"`
 	AnyDraws int               `json:"anyDraws"`
@@ -428,9 +430,19 @@ func Replay(args []string) error {
 	if d.in.Chunk <= 0 {
 		d.in.Chunk = 500
 	}
+	if len(d.in.KeySets) == 0 {
+		d.in.KeySets = []map[string]string{d.in.Keys}
+	}
 	// sanity of the scenario: the driver refuses to run with key names the code would not treat as intended
-	if !v1.WellKnownLabels.Has(d.in.Keys["wk"]) || v1.WellKnownLabels.Has(d.in.Keys["custom"]) {
-		return fmt.Errorf("scenario keys: wk=%q must be well known, custom=%q must not be", d.in.Keys["wk"], d.in.Keys["custom"])
+	for _, ks := range d.in.KeySets {
+		if !v1.WellKnownLabels.Has(ks["wk"]) || v1.WellKnownLabels.Has(ks["custom"]) || v1.WellKnownLabels.Has(ks["custom2"]) {
+			return fmt.Errorf("scenario keys: wk=%q must be well known, custom=%q/%q must not be", ks["wk"], ks["custom"], ks["custom2"])
+		}
+	}
+	chunkNo := 0
+	nextKeys := func() {
+		d.in.Keys = d.in.KeySets[chunkNo%len(d.in.KeySets)]
+		chunkNo++
 	}
 	w, err := trace.NewWriter(*out, *prefix, *shards)
 	if err != nil {
@@ -446,12 +458,14 @@ func Replay(args []string) error {
 	}
 	for i, c := range d.in.Cases {
 		if i%d.in.Chunk == 0 {
+			nextKeys()
 			w.Begin(cfg())
 		}
 		w.Emit(d.doCase(c))
 	}
 	for i, m := range d.in.Multi {
 		if i%d.in.Chunk == 0 {
+			nextKeys()
 			w.Begin(cfg())
 		}
 		w.Emit(d.doMulti(m))
